@@ -192,3 +192,17 @@ for nm, (dec, fmt, q, nx, na, nb, type_, obf) in {
 }.items():
     t, body = _repl(dec, fmt, q, nx, na, nb, type_, obf)
     _add(nm, t, body, funcs=F_REPL)
+
+# thorough: longer literals
+t, body = _rev(find_reverse, b"reverse(", b"'", 5, "string", "reverse", "find_reverse", 0)
+_add("reverse_sq5", t, body, tier="thorough", timeout=1500, funcs=["multidecoder.decoders.reverse.find_reverse"])
+t, body = _repl(find_replace, ["x", b".replace(", "a", b",", "b", b")"], b"'", 4, 2, 2, "string", "replace")
+_add("replace_x4_a2_b2", t, body, tier="thorough", timeout=2400, funcs=F_REPL)
+t, body, pre_ = _concat2(b"'", b"'", b" + ", 3, 3, pre_n=0, suf_n=0)
+_add("concat_sq_3_3", t, body, extra_pre=pre_, tier="thorough", timeout=2400, funcs=F_CONCAT)
+t, body, pre_ = _concat2(b'"', b"'", b"&amp;", 2, 2, pre_n=2, suf_n=2)
+_add("concat_mixed_2_2_embed2", t, body, extra_pre=pre_, tier="thorough", timeout=2400, funcs=F_CONCAT)
+t, body = _repl(find_vba_replace, [b"Replace( ", "x", b" , ", "a", b" , ", "b", b" )"], b'"', 6, 2, 2, "vba.string", "vba.replace")
+_add("replace_vba_x6_a2_b2", t, body, tier="thorough", timeout=2400, funcs=F_REPL)
+t, body = _repl(find_powershell_replace, ["x", b" -replace ", "a", b" , ", "b"], b"'", 5, 3, 1, "powershell.string", "replace")
+_add("replace_ps_x5_a3_b1", t, body, tier="thorough", timeout=2400, funcs=F_REPL)
